@@ -123,9 +123,18 @@ def case(ctx, rng, idx, state):
         fft = np.array([int(x) for x in rng.integers(1, 3, size=3)])
     if np.prod(div) == 1:
         div = np.array([2, 2, 2]) if (not with_group or pg.symmetric_grid([2, 2, 2])) else div
-    grid = Grid(system, NKdiv=div, NKFFT=fft)
-    if not (np.all(grid.div == div) and np.all(grid.FFT == fft)):
-        raise harness.Skip("grid adjusted")
+    if idx % 6 == 2 and not with_group:
+        # tetrahedral grid: the K-point list that is pickled and reloaded consists of tetrahedra
+        from wannierberri.grid import GridTetra
+        fft = np.array([int(x) for x in rng.integers(1, 3, size=3)])
+        with env.quiet():
+            grid = GridTetra(system, length=float(rng.uniform(3, 8)), NKFFT=fft.copy())
+        info = dict(info, grid="GridTetra")
+        ctx.count("tetrahedral_grid_cases")
+    else:
+        grid = Grid(system, NKdiv=div, NKFFT=fft)
+        if not (np.all(grid.div == div) and np.all(grid.FFT == fft)):
+            raise harness.Skip("grid adjusted")
     use_irred = bool(with_group and rng.random() < 0.8)
     storage = "dump_results" if rng.random() < 0.5 else "allow_restart"
     adpt_mesh = 2
